@@ -17,7 +17,16 @@ fn process_commands(
     for command in commands {
         let clean_command = command.trim();
         if clean_command != "" {
-            match process_request(clean_command, dbs, client) {
+            let response = process_request(clean_command, dbs, client);
+            // Each entry of the reply belongs to the command that caused it: whatever this command
+            // left in the session channel beyond its own entry (a refused command also queues its
+            // error text there) must not be read as the reply of the next command.
+            let first_message = match receiver.try_next() {
+                Ok(Some(message)) => Some(message),
+                _ => None,
+            };
+            while let Ok(Some(_)) = receiver.try_next() {}
+            match response {
                 Response::Error { msg } => {
                     responses.push(msg.clone());
                     log::debug!("Http response Error: {}", msg);
@@ -37,23 +46,13 @@ fn process_commands(
                 }
                 _ => {
                     log::debug!("[http] - success processed");
-                    match receiver.try_next() {
-                        Ok(message_opt) => match message_opt {
-                            Some(message) => {
-                                responses.push(message);
-                            }
-                            _ => {
-                                responses.push("empty".to_string());
-                                log::debug!("http_ops::process_message::Empty message");
-                            }
-                        },
-                        Err(e) => {
+                    match first_message {
+                        Some(message) => {
+                            responses.push(message);
+                        }
+                        None => {
                             responses.push("empty".to_string());
-                            log::debug!(
-                                "http_ops::receiver.try_next empty for {}, message {}",
-                                clean_command,
-                                e
-                            )
+                            log::debug!("http_ops::process_message::Empty message");
                         }
                     }
                 }
